@@ -32,6 +32,54 @@ def definition(kind, bs, data):
     return hashlib.sha256(acc).hexdigest()
 
 
+def encryptor_feed(ctx):
+    """The hasher as the encryptor feeds it: the real `Storage::upload_backup` with the chunked hasher on a ciphertext
+    of more than two blocks, gpg's output re-fragmented (by a stand-in that pipes the real gpg through a re-chunker)
+    so that fragments straddle the 4 MiB block boundaries; the checksum delivered with the finalisation must be the
+    definition's value of the bytes delivered."""
+    import os, random
+    from vlib import hist, store
+    from props import upload_common as uc
+    out = []
+    for i, first in enumerate([3596] if ctx.tier == 'quick' else [3596, 1, 4095, 8191, 5000]):
+        rng = random.Random(ctx.seed + i)
+        w = hist.World(ctx, 5000 + i, rng)
+        home = uc.make_gnupghome(w.base)
+        try:
+            with open(os.path.join(w.items[0], 'noise'), 'wb') as f:
+                f.write(random.Random(i).randbytes(9 * 1024 * 1024 + 12345 * i))
+            r = w.backup(advance=5)
+            assert r.rc == 0, r.errors()
+            g, b = store.group_name(w.now), store.backup_name(w.now)
+            d = os.path.join(w.base, 'fakebin')
+            os.makedirs(d)
+            with open(os.path.join(d, 'rechunk.py'), 'w') as f:
+                f.write('import os, sys, time\nfirst = %d\nn = first\nwhile True:\n    buf = b""\n    while len(buf) < n:\n        x = os.read(0, n - len(buf))\n'
+                        '        if not x: break\n        buf += x\n    if not buf: break\n    os.write(1, buf)\n    time.sleep(0.0002)\n    n = 4096\n' % first)
+            with open(os.path.join(d, 'gpg'), 'w') as f:
+                f.write('#!/bin/bash\n/usr/bin/gpg "$@" | /usr/bin/env python3 %s/rechunk.py\n' % d)
+            os.chmod(os.path.join(d, 'gpg'), 0o755)
+            blobf = os.path.join(w.base, 'cipher.bin')
+            o = core.run_lines(core.harness_exe(ctx), [core.req('upbackup', {'backup_path': os.path.join(w.root, g, b), 'group': g, 'name': b, 'passphrase': 'pp',
+                                                                              'max': None, 'chunked': True, 'out': blobf})],
+                               env=dict(os.environ, GNUPGHOME=home, PATH=d + ':' + os.environ.get('PATH', '/usr/bin:/bin')), timeout=600)[0]
+            case = {'scenario': 'encryptor-feed', 'first_fragment': first}
+            if not isinstance(o, dict) or o.get('result') != 'ok':
+                ctx.violation('runtime', 'upload_backup with the re-chunking gpg stand-in failed: %s' % str(o)[:200], {'case': case}, found_input=False)
+                continue
+            blob = open(blobf, 'rb').read()
+            want = definition('dropbox', MIB4, blob)
+            got = (o.get('final') or {}).get('checksum')
+            if got != want:
+                ctx.violation('property', 'the checksum the encryptor delivers (%s...) differs from the chunked SHA-256 (%s...) of the %d bytes it sent when gpg\'s output '
+                              'arrives in fragments %d,4096,4096,... (a fragment straddles a 4 MiB block boundary)' % (str(got)[:12], want[:12], len(blob), first), {'case': case})
+            out.append({'bytes': len(blob), 'first_fragment': first})
+        finally:
+            uc.kill_agent(home)
+            w.cleanup()
+    return out
+
+
 def gen_bytes(lens, seed):
     out = []
     i = 0
@@ -136,6 +184,7 @@ def check(ctx):
             big_fail += 1
             ctx.violation('property', 'provider hasher %s: checksum differs from the definition for %d bytes' % (c['kind'], len(data)),
                           {'case': c, 'impl': i, 'expected': want})
+    feed = encryptor_feed(ctx)
     distinct = {core.canon(c) for c in small if len(c['parts']) >= 2 and sum(len(p) for p in c['parts']) > c['bs']}
     ctx.coverage.update({
         'evaluations': len(small) + len(big),
@@ -144,7 +193,7 @@ def check(ctx):
                 'non-trivial = at least two writes and more than one block; big: providers\' hasher() at k*4MiB-1,k*4MiB,k*4MiB+1 with random fragmentations' % maxlen,
         'samples': [small[5], small[len(small) // 2], big[0]],
         'correspondence': {'small': st, 'big_cases': len(big), 'big_failures': big_fail},
-        'disagreements_checked': st['cases'],
+        'disagreements_checked': st['cases'], 'encryptor_feed': feed,
         'exhaustive': True,
         'explanation': 'exhaustive over bs 1..5 x lengths 0..%d x all partitions; the 4 MiB cases compare the implementation with the definition only (the theorem is size-generic)' % maxlen,
     })
